@@ -16,13 +16,19 @@ ASSUMPTIONS = [
 ]
 SPEC = {'conf_quick': [('K1', 3), ('K5', 3)],
  'conf_thorough': [('K1', 4), ('K3', 3), ('K5', 3), ('K7', 3)],
- 'quick': [('K0', 'std', 3),
+ 'quick': [('K1', 'ar', 6),
+           ('K16', 'cross', 4),
+           ('K0', 'std', 3),
            ('K1', 'std', 3),
            ('K3', 'small', 4),
            ('K14', 'liq', 4),
            ('K1', 'lend', 4),
            ('lasso', 'K0', 'liq', 2, 6)],
- 'thorough': [('K0', 'std', 4),
+ 'thorough': [('K1', 'ar', 8),
+              ('K10', 'ar', 8),
+              ('K13', 'ar', 8),
+              ('K16', 'cross', 5),
+              ('K0', 'std', 4),
               ('K1', 'std', 4),
               ('K2', 'std', 4),
               ('K3', 'std', 4),
